@@ -216,6 +216,7 @@ def verify_fuc(spec, opts):
             args = spec.setup(I)
             ctx = {'pre': st.snapshot(), 'args': args, 'alloc0': st.alloc}
             I.frame = Frame({}, None, clsname)
+            args = fill_defaults(I, fnode, args)
             outcome = I.run_function(fnode, args)
             st.ghost['__outcome__'] = outcome
             spec.post(I, outcome, ctx)
@@ -258,6 +259,27 @@ def verify_fuc(spec, opts):
     res.missing_cover = [c for c in spec.cover if c not in res.covered]
     res.secs = time.time() - t0
     return res
+
+
+def fill_defaults(I, fnode, args):
+    """parameters the contract's setup leaves out take their declared default values"""
+    a = fnode.args
+    params = a.posonlyargs + a.args
+    env = dict(args)
+    nd = len(a.defaults)
+    for i, p in enumerate(params):
+        if p.arg not in env:
+            j = i - (len(params) - nd)
+            if j >= 0:
+                env[p.arg] = I.eval(a.defaults[j])
+    for k, d in zip(a.kwonlyargs, a.kw_defaults):
+        if k.arg not in env and d is not None:
+            env[k.arg] = I.eval(d)
+    if a.vararg is not None and a.vararg.arg not in env:
+        env[a.vararg.arg] = VTuple([])
+    if a.kwarg is not None and a.kwarg.arg not in env:
+        env[a.kwarg.arg] = VCDict({})
+    return env
 
 
 def cover(I, label):
